@@ -131,6 +131,20 @@ def run(tier):
         if bool(x) != bool(y) or (x and not orc.same(x, y)):
             report.fail({"site": "defaults", "kind": "spelled-out-default-differs", "pair": a + "|" + b},
                         {"plain": a, "spelled_out": b, "results": [x, y]})
+    # the same spellings read from a glycan file (the blank-separated anomer must survive the file channel)
+    fl = sorted(set(x for a, b, _ in whole for x in (a, b)))
+    fo = C.run_impl("convert_file", {"items": fl, "tmp": os.path.join(C.BUILD, "tmp_c06")})["results"]
+    if len(fo) != len(fl):
+        report.fail({"site": "defaults", "kind": "file-channel-count"}, {"lines": len(fl), "results": len(fo)})
+    else:
+        for ln, o in zip(fl, fo):
+            report.case("file:" + ln, True)
+            x = out[ln]["smiles"]
+            y = o.get("smiles")
+            if bool(x) != bool(y) or (x and not orc.same(x, y)):
+                report.fail({"site": "defaults", "kind": "file-channel-differs"},
+                            {"line": ln, "from_file": y, "echo": o.get("echo"), "direct": x,
+                             "problem": "a glycan read from a glycan file gives another molecule than the same text converted directly"})
     orc.close()
     if broken and not report.violations:
         report.fail({"site": "proof", "kind": "obligation-broken"},
